@@ -18,7 +18,7 @@ import (
 
 // C20 — an envelope object reflects its last successful signing or its parsed bytes. (Engine E3: histories.)
 
-var c20Ops = []string{"sign-A", "sign-B", "sign-fail-before-signer", "sign-fail-in-signer", "sign-fail-at-timestamping", "sign-fail-declared-key-spec-other-than-leaf", "sign-fail-after-signer", "sign-signature-by-another-key", "another-object-signs-C", "verify", "content"}
+var c20Ops = []string{"sign-A", "sign-B", "sign-fail-before-signer", "sign-fail-in-signer", "sign-fail-at-timestamping", "sign-fail-declared-key-spec-other-than-leaf", "sign-fail-after-signer", "sign-signature-by-another-key", "sign-D-whose-context-ends-while-the-signer-works", "another-object-signs-C", "verify", "content"}
 
 // failingTimestamper is a tspclient.Timestamper whose authority is down: the inner envelope has already signed when it is asked.
 type failingTimestamper struct{}
@@ -156,6 +156,10 @@ func c20Request(which string, st c20Start) *signature.SignRequest {
 	if which == "wrong-key" {
 		req.Payload.Content = []byte(`{"request":"wrong-key"}`)
 	}
+	if which == "ctx" {
+		req.Payload.Content = []byte(`{"request":"D"}`)
+		req.Payload.ContentType = "text/d"
+	}
 	if st.remote {
 		rs := envenc.NewRemoteSigner(pki.K(key), certs)
 		if which == "wrong-key" {
@@ -259,7 +263,7 @@ func c20Body(c *mc.Ctx, st c20Start, depth int) {
 			}
 		}
 	}()
-	signedPayload := map[string]string{"signed-A": `{"request":"A"}`, "signed-B": `{"request":"B"}`}
+	signedPayload := map[string]string{"signed-A": `{"request":"A"}`, "signed-B": `{"request":"B"}`, "signed-D": `{"request":"D"}`}
 	check := func(after string) bool {
 		o1 := c20Observe(env)
 		o2 := c20Observe(env)
@@ -363,8 +367,20 @@ func c20Body(c *mc.Ctx, st c20Start, depth int) {
 				}
 			}()
 		default:
-			which := map[string]string{"sign-A": "A", "sign-B": "B", "sign-fail-before-signer": "fail-before", "sign-fail-in-signer": "fail-in", "sign-fail-at-timestamping": "fail-ts", "sign-fail-declared-key-spec-other-than-leaf": "fail-spec", "sign-fail-after-signer": "fail-after", "sign-signature-by-another-key": "wrong-key"}[op]
+			which := map[string]string{"sign-A": "A", "sign-B": "B", "sign-fail-before-signer": "fail-before", "sign-fail-in-signer": "fail-in", "sign-fail-at-timestamping": "fail-ts", "sign-fail-declared-key-spec-other-than-leaf": "fail-spec", "sign-fail-after-signer": "fail-after", "sign-signature-by-another-key": "wrong-key", "sign-D-whose-context-ends-while-the-signer-works": "ctx"}[op]
 			req := c20Request(which, st)
+			if which == "ctx" {
+				// a valid request handed over with a context that ends while the (external) signer works; with a local signer the context
+				// has ended before the call. Whether the library gives up is its choice: the outcome is judged by what Sign returns.
+				ctx, cancel := context.WithCancel(context.Background())
+				if rs, ok := req.Signer.(*envenc.RemoteSigner); ok {
+					rs.OnSign = cancel
+				} else {
+					cancel()
+				}
+				defer cancel()
+				req = req.WithContext(ctx)
+			}
 			raw, err, pan := func() (raw []byte, err error, pan any) {
 				defer func() {
 					if r := recover(); r != nil {
@@ -388,6 +404,10 @@ func c20Body(c *mc.Ctx, st c20Start, depth int) {
 				}
 				model = "signed-" + which
 				lastSigned = raw
+			case which == "ctx" && err == nil:
+				model = "signed-D"
+				lastSigned = raw
+				c.Outcome("context-ended-during-sign:signed")
 			case which == "wrong-key" && st.remote && err == nil:
 				// the library does not check an external signer's signature value: the returned (unverifiable) bytes are the object's state
 				if _, _, verr, _ := parseVerify(st.media, raw); verr == nil {
